@@ -1,13 +1,16 @@
 /-
   C14 — graph-reducible algorithms agree with their graph-theoretic definitions.
   Property theorems about the model functions of `XgiModel/C14/Algo.lean` (the ones the driver runs),
-  for every well-formed network (`Net.WF`: distinct node IDs, distinct edge IDs, members duplicate-free nodes).
+  for every well-formed network (`Net.WF`: distinct node IDs, distinct edge IDs, members duplicate-free nodes;
+  a member list may be EMPTY — empty hyperedges are inside every theorem, and the section "empty hyperedges"
+  says what each function does with them) and, for the directed bipartite graph, every `DiWF` directed network.
   `Adj h u v` : u ≠ v share a hyperedge (link of the clique expansion); `Reach h` its reflexive-transitive closure;
   `BAdj h` : incidence links of the node–edge bipartite graph.
 -/
 import XgiModel.C14.Lemmas
 import XgiModel.C14.LemmasConv
 import XgiModel.C14.LemmasSP
+import XgiModel.C14.LemmasExt
 
 namespace Xgi.C14
 open Xgi
@@ -263,6 +266,13 @@ theorem sssp_symm {h : Net} (wf : h.WF) {s t : PyId} {ds dt : PyId → Option Na
       have := ((sssp_spec wf ht s k).1 hts).symm
       rw [(sssp_spec wf hs t k).2 this] at hst; cases hst
 
+
+/-- `shortest_path_length(H)` (all pairs): never fails, yields one row per node in node order, and the row of
+    `s` is the table of `single_source_shortest_path_length(H, s)` (so `sssp_spec`, `sssp_symm`, … apply) -/
+theorem spl_spec {h : Net} (wf : h.WF) :
+    ∃ rows : List (PyId × List (PyId × Option Nat)), spl h = some rows ∧ rows.map (·.1) = h.nodes ∧
+      ∀ s t, (s, t) ∈ rows → ∃ d, sssp h s = .ok d ∧ t = ssspTable h d := spl_eq wf
+
 /-! ### clustering coefficient -/
 
 /-- `clustering_coefficient(H)[n]` = (#triangles at n)/(k(k−1)/2) in the pairwise projection, 0 for k < 2
@@ -407,6 +417,96 @@ theorem to_dag_ids_and_acyclic (h : Net) (t : SubT) :
     | immediate => exact (mem_encRaw.1 hm).1.2.2.1
     | empirical => exact (mem_encRaw.1 (mem_encLinks_empirical.1 hm).1).1.2.2.1
 
+/-! ### directed bipartite graph: `to_bipartite_graph(DH)` for a DiHypergraph -/
+
+/-- vertices `0..n-1` flagged 0 (nodes) and `n..n+m-1` flagged 1 (edges), as in the undirected case -/
+theorem to_bipartite_directed_nodes_spec (h : DiNet) (i b : Nat) :
+    (i, b) ∈ dibipNodes h ↔ (i < h.nodes.length ∧ b = 0) ∨
+      (h.nodes.length ≤ i ∧ i < h.nodes.length + h.edges.length ∧ b = 1) := mem_dibipNodes
+
+/-- **orientation**: `a → b` is a link of the DiGraph iff either `a` is the index of a node in the TAIL of the
+    edge with index `b` (node → edge), or `b` is the index of a node in the HEAD of the edge with index `a`
+    (edge → node) -/
+theorem to_bipartite_directed_spec {h : DiNet} (wf : DiWF h) (a b : Nat) :
+    (a, b) ∈ dibipEdges h ↔
+      ∃ j e tl hd n, h.edges[j]? = some (e, tl, hd) ∧
+        ((n ∈ tl ∧ h.nodes[a]? = some n ∧ b = h.nodes.length + j) ∨
+         (n ∈ hd ∧ a = h.nodes.length + j ∧ h.nodes[b]? = some n)) := mem_dibipEdges wf
+
+/-- read per direction: a link leaving a node vertex means tail membership, a link entering one means head
+    membership (the two cases cannot be confused because node indices are `< n` and edge indices `≥ n`) -/
+theorem to_bipartite_directed_tail_head {h : DiNet} (wf : DiWF h) (i j : Nat) (hi : i < h.nodes.length) :
+    ((i, h.nodes.length + j) ∈ dibipEdges h ↔ ∃ e tl hd n, h.edges[j]? = some (e, tl, hd) ∧ n ∈ tl ∧ h.nodes[i]? = some n) ∧
+    ((h.nodes.length + j, i) ∈ dibipEdges h ↔ ∃ e tl hd n, h.edges[j]? = some (e, tl, hd) ∧ n ∈ hd ∧ h.nodes[i]? = some n) := by
+  simp only [mem_dibipEdges wf]
+  constructor
+  · constructor
+    · rintro ⟨j', e, tl, hd, n, hj, (⟨hn, hnode, hk⟩ | ⟨_, hk, _⟩)⟩
+      · have : j = j' := by omega
+        subst this; exact ⟨e, tl, hd, n, hj, hn, hnode⟩
+      · omega
+    · rintro ⟨e, tl, hd, n, hj, hn, hnode⟩
+      exact ⟨j, e, tl, hd, n, hj, .inl ⟨hn, hnode, rfl⟩⟩
+  · constructor
+    · rintro ⟨j', e, tl, hd, n, hj, (⟨_, hnode, _⟩ | ⟨hn, hk, hnode⟩)⟩
+      · have := (List.getElem?_eq_some_iff.1 hnode).1
+        omega
+      · have : j = j' := by omega
+        subst this; exact ⟨e, tl, hd, n, hj, hn, hnode⟩
+    · rintro ⟨e, tl, hd, n, hj, hn, hnode⟩
+      exact ⟨j, e, tl, hd, n, hj, .inr ⟨hn, rfl, hnode⟩⟩
+
+/-- the index dictionaries of the directed case -/
+theorem to_bipartite_directed_index_spec (h : DiNet) :
+    (∀ i n, (i, n) ∈ dibipNodeIndex h ↔ h.nodes[i]? = some n) ∧
+    (∀ k e, (k, e) ∈ dibipEdgeIndex h ↔ ∃ j tl hd, h.edges[j]? = some (e, tl, hd) ∧ k = h.nodes.length + j) :=
+  ⟨fun _ _ => mem_dibipNodeIndex, fun _ _ => mem_dibipEdgeIndex⟩
+
+/-! ### empty hyperedges: what every function does with them -/
+
+/-- neighbours, `_plain_bfs`, every component function, single-source and all-pairs distances, the projection
+    graph and the clustering coefficient are unchanged when the empty hyperedges are deleted -/
+theorem empty_edges_invisible (h : Net) :
+    nbrs (dropEmpty h) = nbrs h ∧ plainBfs (dropEmpty h) = plainBfs h ∧
+    components (dropEmpty h) = components h ∧ numberCC (dropEmpty h) = numberCC h ∧
+    isConnected (dropEmpty h) = isConnected h ∧ largestCC (dropEmpty h) = largestCC h ∧
+    (∀ n, nodeCC (dropEmpty h) n = nodeCC h n) ∧ (∀ src, sssp (dropEmpty h) src = sssp h src) ∧
+    projEdges (dropEmpty h) = projEdges h ∧ clustering (dropEmpty h) = clustering h :=
+  ⟨nbrs_dropEmpty h, plainBfs_dropEmpty h, components_dropEmpty h, numberCC_dropEmpty h, isConnected_dropEmpty h,
+   largestCC_dropEmpty h, nodeCC_dropEmpty h, sssp_dropEmpty h, projEdges_dropEmpty h, clustering_dropEmpty h⟩
+
+/-- line graph: EVERY hyperedge is a vertex (the empty ones too, with an empty `original_hyperedge`), and for
+    s ≥ 1 both ends of a link are non-empty hyperedges — an empty hyperedge is an isolated vertex -/
+theorem line_graph_empty_edges (h : Net) {s : Nat} (hs : 1 ≤ s) (w : LW) :
+    lineNodes h = h.edges ∧
+    ∀ a b x, (a, b, x) ∈ lineLinks h s w →
+      ∃ ma mb, (a, ma) ∈ h.edges ∧ (b, mb) ∈ h.edges ∧ ma ≠ [] ∧ mb ≠ [] :=
+  ⟨rfl, fun _ _ _ hl => lineLinks_members_nonempty hs hl⟩
+
+/-- `weights="normalized"` divides by min(|a|,|b|): for s ≥ 1 that is never 0 (no `ZeroDivisionError`); the
+    model raises it only for s ≤ 0 with an empty hyperedge in a linked pair -/
+theorem line_graph_no_zero_division (h : Net) {s : Int} (hs : 1 ≤ s) (w : LW) : lineZeroDiv h s w = false :=
+  lineZeroDiv_false h hs w
+
+/-- bipartite graph: the vertex of an empty hyperedge has no link -/
+theorem to_bipartite_empty_edge_isolated {h : Net} (wf : h.WF) (j : Nat) (e : PyId) (he : h.edges[j]? = some (e, [])) :
+    ∀ i, (i, h.nodes.length + j) ∉ bipEdges h := by
+  intro i hm
+  obtain ⟨j', e', ms, n, hj, hn, _, hk⟩ := (mem_bipEdges wf).1 hm
+  have : j = j' := by omega
+  subst this
+  rw [he] at hj
+  simp only [Option.some.injEq, Prod.mk.injEq] at hj
+  rw [← hj.2] at hn
+  cases hn
+
+/-- encapsulation DAG (all three `subset_types`): both ends of a link are non-empty hyperedges, so an empty
+    hyperedge — although a subset of every hyperedge — is an isolated vertex (the code finds candidates
+    through shared nodes) -/
+theorem to_dag_empty_isolated (h : Net) (t : SubT) (a b : Entry) (hl : (a, b) ∈ encLinks h t) :
+    a.2 ≠ [] ∧ b.2 ≠ [] := (encLinks_enc hl).nonempty
+
+
 /-! ### non-vacuity: concrete non-trivial inputs satisfy the hypotheses and evaluate as expected -/
 
 section Examples
@@ -457,6 +557,38 @@ example : encDag exNested .immediate = [(.int 0, .int 2)] := by decide
 example : encDag exNested .empirical = [(.int 0, .int 2)] ∧
     encDag { exNested with edges := [(.int 1, [.int 1]), (.int 0, [.int 1, .int 2, .int 3]), (.int 2, [.int 2, .int 3]),
       (.int 3, [.int 1, .int 2, .int 4, .int 5])] } .empirical = [(.int 0, .int 2)] := by decide
+
+/-- `exNet` plus two empty hyperedges (IDs 13, 14) -/
+def exEmpty : Net := { exNet with edges := (.int 13, []) :: exNet.edges ++ [(.int 14, [])] }
+
+/-- tail {1,2} → head {2,3}; an edge with empty tail; an edge with empty tail and head -/
+def exDi : DiNet :=
+  { nodes := [.int 1, .int 2, .int 3],
+    edges := [(.str "a", [.int 1, .int 2], [.int 2, .int 3]), (.str "b", [], [.int 1]), (.str "c", [], [])] }
+
+example : exEmpty.WF := by
+  refine ⟨by decide, by decide, ?_⟩
+  intro p hp
+  simp only [exEmpty, exNet, List.cons_append, List.nil_append, List.mem_cons, List.not_mem_nil, or_false] at hp
+  rcases hp with rfl | rfl | rfl | rfl | rfl <;> exact ⟨by decide, by decide⟩
+example : (dropEmpty exEmpty).edges = exNet.edges := by decide
+example : components exEmpty = components exNet ∧ projEdges exEmpty = projEdges exNet := by decide
+example : lineNodes exEmpty = exEmpty.edges ∧ lineLinks exEmpty 1 .absolute = [(.int 10, .int 11, some 1)] := by decide
+example : (lineLinks exEmpty 0 .unweighted).length = 10 ∧ lineZeroDiv exEmpty 0 .normalized = true ∧
+    lineZeroDiv exEmpty 1 .normalized = false ∧ lineZeroDiv exNet 0 .normalized = false := by decide
+example : bipEdges exEmpty = [(0, 7), (1, 7), (2, 7), (2, 8), (3, 8), (4, 9)] ∧
+    bipNodes exEmpty = [(0, 0), (1, 0), (2, 0), (3, 0), (4, 0), (5, 0), (6, 1), (7, 1), (8, 1), (9, 1), (10, 1)] := by decide
+example : encDag { exNested with edges := (.int 9, []) :: exNested.edges } .all = encDag exNested .all := by decide
+example : ∃ rows, spl exNet = some rows ∧ rows.length = 6 := ⟨_, rfl, by decide⟩
+example : DiWF exDi := by
+  refine ⟨by decide, by decide, ?_⟩
+  intro p hp
+  simp only [exDi, List.mem_cons, List.not_mem_nil, or_false] at hp
+  rcases hp with rfl | rfl | rfl <;> exact ⟨by decide, by decide, by decide, by decide⟩
+/-- node 2 is in tail and head of "a": both directions are present -/
+example : dibipEdges exDi = [(0, 3), (1, 3), (3, 1), (3, 2), (4, 0)] ∧
+    dibipNodes exDi = [(0, 0), (1, 0), (2, 0), (3, 1), (4, 1), (5, 1)] ∧
+    dibipEdgeIndex exDi = [(3, .str "a"), (4, .str "b"), (5, .str "c")] := by decide
 
 end Examples
 
